@@ -268,6 +268,9 @@ func oracleC04(p *sim.Plan, out *sim.Outcome) []sim.Violation {
 					connEpoch[r.Conn] = epoch
 				case mqttc.PUBREC:
 					gotAck[ak{r.Conn, mqttc.PUBREC, r.Pkt.PID}]++
+					if r.Pkt.Code >= 0x80 {
+						delete(openFlow, [2]int{connEpoch[r.Conn], int(r.Pkt.PID)}) // refused: the flow is over, the identifier is free
+					}
 					if pl, ok := lastPayload[[2]int{r.Conn, int(r.Pkt.PID)}]; ok && r.Pkt.Code < 0x80 {
 						def[key{pl, connEpoch[r.Conn]}] = true
 					}
